@@ -112,6 +112,8 @@ def gen_case(rng, rates, sep, aliases, targets, connectives=True):
         return '%s - %s' % (xt, yt), 'sub', ('money', a, X - Yc, abs(X) + abs(Yc))
     n = rng.choice(['2', '3', '0.5', '10', '7', '1.25', '0.0000000000000001', '0.000000000000000125', '1000000000000000000'])        # also tiny and huge scalars
     nt = render_literal(n, sep)
+    if rng.random() < 0.15:
+        n, nt = rng.choice([('16', '0x10'), ('8', '0o10'), ('2', '0b10'), ('255', '0xFF'), ('4', '0B100')])          # a number is a number in whatever base it is written
     if r < 0.87:
         return '%s * %s' % (xt, nt), 'scale*', ('money', a, X * Fraction(n), abs(X * Fraction(n)))
     if r < 0.94:
